@@ -56,6 +56,10 @@ pub enum PeerOp {
     /// traffic: acknowledgement, window update and payload — possibly larger than the socket's own segment
     /// size — arrive together)
     DataAckWnd { len: u16, wnd: u32 },
+    /// the peer retransmits its newest data packet (its acknowledgement was lost, say): same number and payload,
+    /// but — as every uTP packet — stamped with the *current* acknowledgement and receive window. Falls back to a
+    /// pure ack when the peer has not sent data yet.
+    DupDataWnd { wnd: u32 },
     /// a Crafted packet whose encoding is then damaged: bytes overwritten, first-extension byte forced,
     /// junk appended, truncated
     Mangled { base: Box<PeerOp>, flips: Vec<(u16, u8)>, first_ext: Option<u8>, append: Vec<u8>, trunc: Option<u16> },
@@ -587,6 +591,24 @@ pub fn run(case: &SpCase, trace: bool) -> SpResult {
                         if *dseq == 0 {
                             peer.next_seq = peer.next_seq.wrapping_add(1);
                         }
+                        peer.send(p);
+                    }
+                    PeerOp::DupDataWnd { wnd } => {
+                        let seq = peer.next_seq.wrapping_sub(1);
+                        let mut p = match peer.lens.get(&seq).copied() {
+                            Some(len) if !peer.fin_seqs.contains(&seq) => {
+                                let mut p = peer.base(refparse::ST_DATA);
+                                p.seq = seq;
+                                p.payload = peer_payload(peer.key, seq, len as usize);
+                                res.peer_data_sent.push((net.log_len(), seq));
+                                p
+                            }
+                            _ => peer.base(refparse::ST_STATE),
+                        };
+                        p.ack = peer.ack_base(expected_sock_first);
+                        p.wnd = *wnd;
+                        peer.last_ack = p.ack;
+                        peer.last_wnd = *wnd;
                         peer.send(p);
                     }
                     PeerOp::DataAckWnd { len, wnd } => {
